@@ -9,9 +9,9 @@ cd $WT || exit 9
 git diff -- qlasskit > /verif/seeded/$NAME/patch.diff
 cp $WT/demo.py /verif/seeded/$NAME/demo.py
 PYTHONPATH=$WT /venv/bin/python demo.py >/tmp/seed-demo-with.log 2>&1; WITH=$?
-git stash -q
+git apply -R /verif/seeded/$NAME/patch.diff
 PYTHONPATH=$WT /venv/bin/python demo.py >/tmp/seed-demo-without.log 2>&1; WITHOUT=$?
-git stash pop -q
+git apply /verif/seeded/$NAME/patch.diff
 echo "demo exit with change: $WITH   without: $WITHOUT"
 /verif/tools/baseline.sh $WT; BL=$?
 echo "baseline rc: $BL"
